@@ -175,6 +175,26 @@ def run(ck):
                              "the stream and fails, although save(file) and load(file) work" % len(reads), key="C11.R3|%s.autoload|stream-read-twice" % cls)
                 else:
                     ck.ok("C11.R3", cls + ".autoload:a file object is read once, or rewound between reads [%s]" % _c(p), asite)
+                # where the rewind goes: the stream need not start at offset 0 (a header, another model saved before this one); the second
+                # read must start where the first one did, i.e. at a position taken with tell() before the first read
+                if len(reads) >= 2 and bad is None:
+                    olog = getattr(p.interp, "opaque_log", [])
+                    seeks = [o for o in olog if str(o[0]).endswith(".seek")]
+                    order = [("read" if (e.kind == "ext" and e.detail == "torch.load") else "tell" if (e.kind == "ext-call" and isinstance(e.detail, tuple) and str(e.detail[1]).endswith(".tell")) else None) for e in p.effects]
+                    order = [x for x in order if x]
+                    tell_first = bool(order) and order[0] == "tell"
+                    verdict = None
+                    for o in seeks:
+                        a0 = o[1][0] if o[1] else None
+                        if isinstance(a0, VConst):
+                            verdict = False
+                            why_ = "the stream is rewound to the constant position %r" % (a0.value,)
+                        elif isinstance(a0, VUnknown) and str(a0.tag).startswith("ret(") and ".tell)" in str(a0.tag) and tell_first and verdict is None:
+                            verdict = True
+                    ck.check(verdict, "C11.R3", cls + ".autoload:the second read starts where the first one started [%s]" % _c(p), seeks[0][3] if seeks else asite,
+                             "%s, not to where the first read began: for an open file positioned after other content (a header, a model saved earlier into the same file) load(file) reads the model at the "
+                             "current position but autoload(file) builds its model from that one and then loads the parameters of whatever starts at the constant position"
+                             % (why_ if verdict is False else "the position the stream is rewound to was not recognised"), key="C11.R3|%s.autoload|rewind-to-constant" % cls)
             for p in rets:
                 if True in cond_truths(p, lambda k: k[0] == "eq" and (k[1].is_zero() or k[2].is_zero()) and any("load[" in x for x in (k[1].syms() | k[2].syms()))):
                     continue  # stored size 0: degenerate file, outside the property
